@@ -13,7 +13,7 @@ from fractions import Fraction as F
 
 import z3
 
-from .. import base, extract, oblig, smt, sym
+from .. import base, extract, linevc, oblig, replay, smt, sym
 from ..oblig import Ob, Task
 from ..sym import SV
 
@@ -395,6 +395,108 @@ def dispatch(year):
     return obs
 
 
+def callers(year):
+    """(g) every place a line applies the schedule: it calls the figure_tax of its own tax year, on the amount the form names
+    (contracts/tax_callers.json) and with the return's filing status; no line calls it that the table does not list."""
+    import ast
+    import json
+    with open(os.path.join(oblig.VERIF, 'contracts', 'tax_callers.json')) as f:
+        table = json.load(f)['callers']
+    cat = linevc.Cat.get(year)
+    obs = []
+    found = set()
+    for form, fld in extract.all_lines(year):
+        name = fld.name()
+        fn = extract.line_function(fld)
+        try:
+            node = extract.func_ast(fn)
+        except Exception:
+            continue
+        stack, seen, mentions = [fn], set(), False
+        while stack and not mentions:
+            g = stack.pop()
+            if id(g) in seen:
+                continue
+            seen.add(id(g))
+            try:
+                gnode = extract.func_ast(g)
+            except Exception:
+                continue
+            for n in ast.walk(gnode):
+                if isinstance(n, ast.Name):
+                    if n.id == 'figure_tax' or n.id.startswith('figure_tax'):
+                        mentions = True
+                    ok, obj = extract.resolve_name(g, n.id)
+                    import types as _types
+                    if ok and isinstance(obj, _types.FunctionType) and obj.__code__.co_filename.startswith(extract.REPO) and 'figure_tax' not in obj.__code__.co_filename:
+                        stack.append(obj)
+                    elif ok and isinstance(obj, _types.FunctionType) and obj.__name__ == 'figure_tax':
+                        mentions = True
+                    elif ok and isinstance(obj, dict) and any(isinstance(x, _types.FunctionType) for x in obj.values()):
+                        mentions = True          # a table of functions (closures built in a loop): explore the line
+        if not mentions and name not in table:
+            continue
+        fidn = f'{fn.__code__.co_filename.split("habutax/")[-1]}:{fn.__code__.co_firstlineno}'
+        paths = linevc.explore_line(year, fld)
+        calls = [(p, c) for p in paths for c in getattr(p, 'figure_tax_calls', [])]
+        oid = f'C07/{year}/caller/{name}'
+        if any(p.outcome[0] == 'unsupported' for p in paths):
+            obs.append(Ob(id=oid, status=oblig.UNDECIDED, function=fidn, solver_output='line outside the subset: ' + str([p.outcome[1] for p in paths if p.outcome[0] == 'unsupported'][:1])))
+            continue
+        if not calls:
+            if name in table:
+                obs.append(Ob(id=oid, status=oblig.REFUTED, backend='symexec', function=fidn, clause=f'NOT: {name} applies the tax schedule (contracts/tax_callers.json lists it as a caller)',
+                              witness={}, replay={'reproduced': True, 'static': True}))
+            continue
+        found.add(name)
+        want = table.get(name)
+        bad = None
+        for p, (st, a, r, f) in calls:
+            mod = getattr(f, '__module__', '')
+            if f'.ty{year}.' not in mod:
+                bad = (f'{name} ({year}) figures the tax with {mod}.figure_tax - the schedule of another year', p, None)
+                break
+            if want is None:
+                bad = (f'{name} applies the tax schedule but is not listed in contracts/tax_callers.json', p, None)
+                break
+            ws, wk = c08_symbol(want, year)
+            ssym, _ = c08_symbol('i|1040.filing_status', year, enum=True)
+            hyp = p.conds + p.facts
+            if ws is None or smt.prove(hyp, a == (z3.ToReal(ws) if wk == 'int' else ws))[0] != 'discharged':
+                bad = (f'{name} figures the tax on another amount than {want.split("|")[1]}', p, a)
+                break
+            if ssym is None or smt.prove(hyp, st == ssym)[0] != 'discharged':
+                bad = (f'{name} figures the tax for another status than the filing status of the return', p, st)
+                break
+        if bad is None:
+            obs.append(Ob(id=oid, backend='z3', function=fidn, clause=f'{name} figures the tax with the {year} schedule on {want.split("|")[1]} for the filing status of the return', vc=f'{len(calls)} call(s) on {len(paths)} path(s)'))
+        else:
+            msg, p, term = bad
+            mdl, _ = replay.solve_model(p)
+            rep, wit = c08_native(year, name, mdl)
+            obs.append(Ob(id=oid, status=oblig.REFUTED, backend='z3', function=fidn, clause='NOT: ' + msg, witness=wit, replay=dict(rep, reproduced=False, note='the call site itself is the evidence (function object and argument term of the symbolic run)'),
+                          solver_output=str(term)[:200]))
+    for name in table:
+        if name not in found and name in cat.fields and not any(o.id.endswith('/' + name) for o in obs):
+            obs.append(Ob(id=f'C07/{year}/caller/{name}', status=oblig.REFUTED, backend='symexec', function=name, clause=f'NOT: {name} applies the tax schedule', witness={}, replay={'reproduced': True, 'static': True}))
+    return obs
+
+
+def c08_symbol(name, year, enum=False):
+    from . import c08
+    if enum:
+        return c08.find_symbol(name, c08.status_enum(year))
+    return c08.find_symbol(name)
+
+
+def c08_native(year, lname, model):
+    from . import c08
+    try:
+        return c08.native(year, lname, model)
+    except Exception as ex:
+        return {'error': str(ex)[:100]}, {}
+
+
 def spec_lemmas(year):
     """(f) on the spec: monotone, slope <= top rate; QSS == MFJ is by STATUS_SCHEDULE + dispatch."""
     off = official()
@@ -496,6 +598,7 @@ def run(tier, seed, t0):
         tasks.append(Task(f'C07/{year}/chain', table_chain, year))
         tasks.append(Task(f'C07/{year}/worksheet', worksheet, year, weight=2))
         tasks.append(Task(f'C07/{year}/dispatch', dispatch, year, weight=2))
+        tasks.append(Task(f'C07/{year}/callers', callers, year, weight=3))
         tasks.append(Task(f'C07/{year}/spec', spec_lemmas, year))
         tasks.append(Task(f'C07/{year}/float', bounded_float, year, 50 if tier == 'quick' else 100000, seed, weight=1 if tier == 'quick' else 50))
         if tier == 'thorough':
